@@ -141,6 +141,7 @@ func specsC14(tier string) []seqmc.Spec {
 			oracles: oset("state", "replica", "frame", "reset", "remove", "feed")}
 		for _, t := range targets {
 			cfg.ops = append(cfg.ops, upd(t, "x", 1, 1), upd(t, "x", 2, 2), upd(t, "y/z", 1, 1), updO(t, "o", "x", 1, 1), del(t, "*", 3), del(t, "x", 3),
+				upd(t, "f", 1<<40, 4), // a leaf stamped far ahead of the collector's clock (device time is not collector time)
 				life("sync", t), life("connect", t), life("connecterr", t), life("reset", t), life("remove", t), life("add", t))
 		}
 		cfg.ops = append(cfg.ops, op{kind: "updmeta"})
